@@ -52,6 +52,7 @@ type shaper struct {
 	wrapMem  map[string]*elem
 	aborts   map[string]string
 	literals map[string][]string // token kind -> leaf nodes its text is converted to
+	notNames map[string]bool // words the variable-name predicate refuses
 	built    map[string]int      // transformer -> results checked (G8)
 	misbuilt map[string]string   // transformer -> first result that is not its documented node
 	classes  *Classes
@@ -247,6 +248,23 @@ func (s *shaper) wrap(g *G) *elem {
 		// varName-like: Name tokens the predicate accepts
 		for _, v := range []string{"zz", "true", "false", "if", "else", "while", "for", "return", "yield"} {
 			if s.predAccepts(g.Fn, "Name", v) {
+				if v == "zz" {
+					// an ordinary name stands for every name the predicate accepts:
+					// its text is unknown, so that a wrapper or transformer that
+					// treats some names specially (a call of "toa" turned into an
+					// instruction before scopes are resolved) shows both behaviours.
+					// The words the predicate refuses are excluded by nameBranch.
+					for _, k := range []string{"true", "false", "if", "else", "while", "for", "return", "yield"} {
+						if !s.predAccepts(g.Fn, "Name", k) {
+							if s.notNames == nil {
+								s.notNames = map[string]bool{}
+							}
+							s.notNames[k] = true
+						}
+					}
+					cands = append(cands, cand{"Name", absint.NewVar("NAME", types.Typ[types.String])})
+					continue
+				}
 				cands = append(cands, cand{"Name", absint.MkString(v)})
 			}
 		}
@@ -258,6 +276,7 @@ func (s *shaper) wrap(g *G) *elem {
 			in := absint.NewInterp(e.p.SSA, o)
 			in.Globals = e.globals
 			in.Hooks.Call = s.stdHooks()
+			in.Hooks.Branch = s.nameBranch
 			z := absint.Zero(tokT).(*absint.Struct)
 			f := append([]absint.Val(nil), z.F...)
 			for i := 0; i < tst.NumFields(); i++ {
@@ -374,6 +393,23 @@ func (e *eng) varNamePred(fn *ssa.Function) bool {
 	return true
 }
 
+// nameBranch decides comparisons of the unknown variable name with the words
+// that are no variable names (the predicate refuses them): never equal.
+func (s *shaper) nameBranch(in *absint.Interp, cond absint.Val, site ssa.Instruction) (bool, bool) {
+	c, ok := cond.(*absint.Sym)
+	if !ok || len(c.Args) != 2 || (c.Op != "==" && c.Op != "!=") {
+		return false, false
+	}
+	for i := 0; i < 2; i++ {
+		if v, ok := c.Args[i].(*absint.Sym); ok && v.Op == "var" && v.Name == "NAME" {
+			if k, ok := absint.ConstString(c.Args[1-i]); ok && s.notNames[k] {
+				return c.Op == "!=", true
+			}
+		}
+	}
+	return false, false
+}
+
 // apply runs a transformer on one sequence of elements.
 func (s *shaper) apply(g *G, q seq) []seq {
 	e := s.e
@@ -420,6 +456,7 @@ func (s *shaper) apply(g *G, q seq) []seq {
 			return c, pred(c)
 		}
 		in.Hooks.Call = s.stdHooks()
+		in.Hooks.Branch = s.nameBranch
 		in.Hooks.TypeAssert = func(in *absint.Interp, v absint.Val, asserted types.Type, commaOk bool, site ssa.Instruction) (absint.Val, bool) {
 			x, ok := v.(*elem)
 			if !ok {
